@@ -523,6 +523,81 @@ def client_connect_cases(thorough, rng):
         return list(ex.map(one, jobs))
 
 
+AUTH_BANNERS = [None, b"Welcome", "Bienvenue é中".encode("utf-8"), b"Acc\xe8s refus\xe9", b"\xff\xfe\x00\x01binary",
+                b"", b"x" * 70000, b"nul\x00inside", b"\xc3", b"\xed\xa0\x80 lone surrogate"]
+
+
+def userauth_banner_cases(thorough):
+    """An honest server that sends a USERAUTH_BANNER of its choosing (any bytes) and then refuses or accepts the
+    attempt; every client authentication entry point.  Returns [(case, exception or None)]."""
+    import warnings
+
+    from paramiko import AutoAddPolicy, SSHClient, Transport
+
+    out = []
+    entries = ["password-wrong", "password-right", "publickey", "interactive", "none", "connect-wrong", "sshclient-wrong"]
+    jobs = [(b, e) for b in range(len(AUTH_BANNERS)) for e in entries
+            if thorough or e in ("password-wrong", "connect-wrong", "sshclient-wrong") or (b + len(e)) % 3 == 0]
+
+    def one(job):
+        bi, entry = job
+        banner = AUTH_BANNERS[bi]
+        srv = lib_net.BasicServer()
+        srv.get_banner = lambda: (banner, "en")
+        srv.check_auth_publickey = lambda u, k: 2  # AUTH_FAILED
+        srv.check_auth_none = lambda u: 2
+        srv.get_allowed_auths = lambda u: "password,publickey,keyboard-interactive,none"
+        err = None
+        tc = ts = None
+        try:
+            if entry in ("connect-wrong", "sshclient-wrong"):
+                sc, ss = lib_net.GateSock.pair()
+                ts = Transport(ss)
+                ts.add_server_key(lib_net.hostkey())
+                ts.start_server(threading.Event(), srv)
+                if entry == "connect-wrong":
+                    tc = Transport(sc)
+                    tc.auth_timeout = 10
+                    tc.connect(username="u", password="wrong")
+                else:
+                    c = SSHClient()
+                    c.set_missing_host_key_policy(AutoAddPolicy())
+                    try:
+                        with warnings.catch_warnings():
+                            warnings.simplefilter("ignore")
+                            c.connect("host.example", username="u", password="wrong", sock=sc, allow_agent=False,
+                                      look_for_keys=False, timeout=10, banner_timeout=10, auth_timeout=10)
+                    finally:
+                        c.close()
+            else:
+                tc, ts, sc, ss, srv = lib_net.make_pair(auth=False, server_iface=srv)
+                tc.auth_timeout = 10
+                if entry == "password-wrong":
+                    tc.auth_password("u", "wrong")
+                elif entry == "password-right":
+                    tc.auth_password("u", "pw")
+                elif entry == "publickey":
+                    tc.auth_publickey("u", lib_net.hostkey())
+                elif entry == "interactive":
+                    tc.auth_interactive("u", lambda title, instr, prompts: ["wrong"] * len(prompts))
+                elif entry == "none":
+                    tc.auth_none("u")
+                tc.get_banner()
+        except BaseException as e:  # noqa
+            err = e
+        finally:
+            for t in (tc, ts):
+                try:
+                    if t is not None:
+                        t.close()
+                except Exception:
+                    pass
+        return ("%d|%s" % (bi, entry), err)
+
+    with ThreadPoolExecutor(max_workers=12) as ex:
+        return list(ex.map(one, jobs))
+
+
 def gss_cases():
     """GSS-API authentication with a stub mechanism whose calls fail on peer-supplied tokens (no GSS library is
     installed; the stub's failure class stands for the library's GSSException).  Returns [(victim, where, exc)]."""
@@ -679,6 +754,17 @@ def run(ctx):
                      {"scenario": "SSHClient.connect to an honest server", "server_host_key_type": served_t,
                       "known_hosts_for_the_host": known, "policy": pol, "stored_as": store, "port": int(port)},
                      "connect raised %r" % (err,))
+
+    # ---- (a4) the server's USERAUTH_BANNER (any bytes) x every client authentication entry point
+    for label, err in userauth_banner_cases(ctx.thorough):
+        bi, entry = label.split("|")
+        ctx.case(("auth-banner", int(bi), entry, type(err).__name__), err is not None)
+        ctx.dist("auth-banner:" + (classify(err) if err is not None else "returned"))
+        if err is not None and not isinstance(err, (_SSHE, EOFError, OSError)):
+            ctx.fail("internal-class-surfaced:auth-after-banner:%s" % type(err).__name__,
+                     {"scenario": "server sends USERAUTH_BANNER then answers the attempt", "entry": entry,
+                      "banner_hex": (AUTH_BANNERS[int(bi)] or b"")[:64].hex()},
+                     "%s raised %r" % (entry, err))
 
     # ---- (b) structured fuzz
 
